@@ -29,7 +29,7 @@ CONFIG = {
 
 }
 
-ITER_ALLOWED = [DERIVE_ALLOWED, r'^external_body pub fn (new|f32_mul|into_iter)', r'^assume_specification pub assume_specification<T, A', r'^external fn fmt|^external impl|verifier::external', r'axiom_cardpair_key_model', r'^assume_specification pub assume_specification<T> \[<\[T\]>',
+ITER_ALLOWED = [DERIVE_ALLOWED, r'^external_body pub fn (new|f32_mul|into_iter|verif_clone_board|verif_clone_players)', r'^assume_specification pub assume_specification<T, A', r'^external fn fmt|^external impl|verifier::external', r'axiom_cardpair_key_model', r'^assume_specification pub assume_specification<T> \[<\[T\]>',
                 r'^uninterp spec pub uninterp spec fn (class7|tables_ok|f32_mul_spec|unit_interval)', r'axiom_card_key_model', r'axiom_unit_interval_(mul|one)']
 ITER_ASSUME = [
     DERIVE,
@@ -40,7 +40,7 @@ ITER_ASSUME = [
     'R1 enumerate, R2/R10: f32 `*=` routed through f32_mul, an uninterpreted deterministic function (floats are NOT treated as reals)',
     'R8: Iterator::next re-hosted as an inherent method so that it can carry `requires wf(self)`',
     'the iterator constructor FlopExhaustiveEvaluatorIterator::new is VERIFIED (deck = the 49 cards not on the flop in card-code order, entries = a duplicate-free listing of each range, wf()); assumed inside it: RankRange/SuitRange::into_iter yield the contiguous runs (Kani c13_rank_range*, c13_suit_range), <[T; N]>::try_from(Vec) succeeds iff the length is N (assume_specification; try_into() is spelled as the try_from it calls), precondition: fewer than 2^30 players (usize arithmetic of the capacity hint)',
-    'FlopExhaustiveEvaluator::new (field copies via Clone) is assumed and pinned to a fingerprint of its source; a change voids the assumption and triggers the failing-input search',
+    'FlopExhaustiveEvaluator::new is verified (default scope (0,1)..(48,49), fields from the arguments) with only its two std clone() calls assumed to copy their argument (wrappers verif_clone_board / verif_clone_players: derived Clone is structural)',
     'legal(c) is phrased as the code\'s materialisation test; lemma_legal_distinct (proved, Verus) shows it is exactly "all 5+2n cards of the deal are pairwise different"',
     'exactly-once (proved, Verus): lemma_succ_rank: one step raises cur_rank = position_index * prod(lens) + mixed_radix(idx) by exactly 1; lemma_cur_rank_inj: cur_rank is injective on valid cursors; lemma_orbit_covers: every valid cursor whose rank lies in [rank(start), rank(start)+k) is the (rank difference)-th element of the orbit. The composition across successive next() calls is mechanised too: the verified clients verif_drain / verif_run (specs/drain_spec.rs; proof scaffolding, not code of the crate) call the real into_iter() and next() until None and are checked against those contracts only; verif_run ensures run_is_enumeration: the output is, in enumeration order and each exactly once, the showdown of every legal deal whose board position lies in [from, to), and nothing else',
 ]
